@@ -196,6 +196,8 @@ def cb_parse_value(kind, t):
     if kind == 'int':
         return len(t) * 1000 + (t[0] if t else 0)
     if kind == 'float':
+        if t == b'INF':
+            return float('inf')       # what a callback produces is the value, also when it is not a finite number
         return len(t) + 0.5
     if kind == 'bool':
         return 1 if t[:1] in (b'y', b't') else 0
